@@ -1421,7 +1421,7 @@ class TermCanvas(Canvas):
         if self.scrolling_up == 0:
             yield from self.term
         else:
-            buf = self.scrollback_buffer + self.term
+            buf = [*self.scrollback_buffer, *self.term]
             yield from buf[-(self.height + self.scrolling_up) : -self.scrolling_up]
 
     def content_delta(self, other: Canvas):
